@@ -1697,6 +1697,49 @@ impl<'a, A: Write, B: Write> Gen<'a, A, B> {
     // ---- history ------------------------------------------------------------------------------
 
     fn sample(&mut self, f: Fam) -> Op {
+        let op = self.sample_plain(f);
+        self.maybe_attach_funds(op)
+    }
+
+    /// 4 % of the non-bond transactions carry coins on their root message (none of the contracts'
+    /// messages rejects attached coins; they land on the target's bank account before it executes):
+    /// one coin (85 %) or two, mostly a balance the sender can pay, sometimes more than it holds
+    fn maybe_attach_funds(&mut self, op: Op) -> Op {
+        let sender = match &op {
+            Op::Hub { sender, .. }
+            | Op::Cw { sender, .. }
+            | Op::Reward { sender, .. }
+            | Op::Disp { sender, .. }
+            | Op::Reg { sender, .. } => sender.clone(),
+            _ => return op,
+        };
+        if !self.r.pct(4) {
+            return op;
+        }
+        let n = if self.r.pct(85) { 1 } else { 2 };
+        let mut coins: Vec<(String, u128)> = Vec::new();
+        for _ in 0..n {
+            let denom = match self.r.range(0, 99) {
+                0..=59 => "usei",
+                60..=84 => "uusd",
+                85..=94 => "uAtom",
+                _ => "ujunk",
+            };
+            let have = self.w().balance(&sender, denom);
+            let amt = match self.r.range(0, 99) {
+                0..=24 => 1,
+                25..=39 => 2,
+                40..=54 => 1000,
+                55..=74 => (have / 10).max(1),
+                75..=89 => have.max(1),
+                _ => have.saturating_add(1),
+            };
+            coins.push((s(denom), amt));
+        }
+        Op::WithFunds { coins, inner: Box::new(op) }
+    }
+
+    fn sample_plain(&mut self, f: Fam) -> Op {
         match f {
             Bond => self.f_bond(),
             Unbond => self.f_unbond(),
